@@ -581,7 +581,7 @@ IDENTITY_CALLS = [
 ]
 
 
-def origins(body, local, max_steps=4000, identity=IDENTITY_CALLS, through_try=True, visited=None, stop=None, transparent=False):
+def origins(body, local, max_steps=4000, identity=IDENTITY_CALLS, through_try=True, visited=None, stop=None, transparent=False, component=None):
     """Backward slice from `local` to the calls / args / constants its value derives from.
     Returns list of dicts: {"kind": "call", "t": terminator, "block": b} | {"kind":"arg","local":n}
     | {"kind":"const","c":...} | {"kind":"agg","rv":...} | {"kind":"unknown"}.
@@ -592,6 +592,9 @@ def origins(body, local, max_steps=4000, identity=IDENTITY_CALLS, through_try=Tr
     if local is None:
         return out
     work = [local]
+    want = {}        # local -> component index asked for (`x.1` of a tuple built elsewhere)
+    if component is not None:
+        want[local] = component
     steps = 0
     tries = {e["dst"]: e for e in try_edges(body)} if through_try else {}
     while work and steps < max_steps:
@@ -649,26 +652,38 @@ def origins(body, local, max_steps=4000, identity=IDENTITY_CALLS, through_try=Tr
                     pl = op_place(op)
                     if pl is not None:
                         work.append(pl["l"])
+                        comp = [x for x in pl["p"] if x != "*"]
+                        if comp and re.match(r"^\.\d+$", comp[0]) and pl["l"] not in seen:
+                            want[pl["l"]] = int(comp[0][1:])
+                        elif not comp and want.get(l) is not None:
+                            want[pl["l"]] = want[l]      # a move of the whole tuple
                     else:
                         out.append({"kind": "const", "c": op_const(op), "block": b})
                 elif k in ("ref", "rawptr", "discr"):
                     work.append(rv["pl"]["l"])
                 elif k == "agg":
                     out.append({"kind": "agg", "rv": rv, "block": b})
-                    for o in rv["ops"]:
+                    ops = rv["ops"]
+                    if rv.get("tuple") and want.get(l) is not None and want[l] < len(ops):
+                        ops = [ops[want[l]]]      # only the component that was asked for
+                    for o in ops:
                         pl = op_place(o)
                         if pl is not None:
                             work.append(pl["l"])
+                        elif op_const(o) is not None and rv.get("tuple") and want.get(l) is not None:
+                            out.append({"kind": "const", "c": op_const(o), "block": b})
                 else:
                     out.append({"kind": "other", "rv": rv, "block": b})
     return out
 
 
-def deep_slice(body, local, max_steps=6000):
+def deep_slice(body, local, max_steps=6000, component=None):
     """Every call whose result can flow into `local` (transitive backward data dependence: through moves, borrows,
     field projections, aggregates - closure captures included - and *all* arguments of every call on the way).
+    `component`: `local` is a tuple and only its n-th component is of interest (followed into the tuple's construction).
     Returns (calls, params, consts): the call terminators, the parameter locals and the constants reached."""
     seen, work = set(), [local]
+    want = {local: component} if component is not None else {}
     calls, params, consts = [], set(), []
     steps = 0
     while work and steps < max_steps:
@@ -679,7 +694,10 @@ def deep_slice(body, local, max_steps=6000):
         seen.add(l)
         if 1 <= l <= body.raw["arg_count"]:
             params.add(l)
-        for b, i, d in def_sites(body, l):
+        defs = def_sites(body, l)
+        if want.get(l) is not None and any(i == "term" and d.get("inlined") for _, i, d in defs):
+            defs = [(b, i, d) for b, i, d in defs if not (i == "term" and d.get("inlined"))]     # look into the helper that built the tuple
+        for b, i, d in defs:
             if body.is_cleanup(b):
                 continue
             if i == "term":
@@ -696,10 +714,22 @@ def deep_slice(body, local, max_steps=6000):
                 ops = []
                 if k in ("use", "cast", "repeat"):
                     ops = [rv["op"]]
+                    pl = op_place(rv["op"])
+                    if pl is not None:
+                        comp = [x for x in pl["p"] if x != "*"]
+                        if comp and re.match(r"^\.\d+$", comp[0]) and pl["l"] not in seen:
+                            want[pl["l"]] = int(comp[0][1:])
+                        elif not comp and want.get(l) is not None:
+                            want[pl["l"]] = want[l]
                 elif k in ("ref", "rawptr", "discr"):
                     work.append(rv["pl"]["l"])
+                    comp = [x for x in rv["pl"]["p"] if x != "*"]
+                    if comp and re.match(r"^\.\d+$", comp[0]) and rv["pl"]["l"] not in seen:
+                        want[rv["pl"]["l"]] = int(comp[0][1:])
                 elif k == "agg":
                     ops = rv["ops"]
+                    if rv.get("tuple") and want.get(l) is not None and want[l] < len(ops):
+                        ops = [ops[want[l]]]
                 elif k == "binop":
                     ops = [rv["a"], rv["b"]]
                 elif k == "unop":
@@ -710,8 +740,6 @@ def deep_slice(body, local, max_steps=6000):
                         work.append(pl["l"])
                     elif op_const(o) is not None:
                         consts.append(op_const(o))
-        # writes through a reference to l (`*l = ..`, `(*l).f = ..`) and calls that receive `&mut l` are not followed:
-        # the slice is a may-depend-on set used for "does X take part at all", not for absence proofs
     return calls, params, consts
 
 
